@@ -1162,6 +1162,7 @@ class CPHASE(_OneControlledGate):
             targets=targets,
             controls=controls,
             arg_value=arg_value,
+            control_value=control_value,
             target_gate=self.target_gate,
             **kwargs,
         )
